@@ -671,6 +671,7 @@ type Fn struct {
 	ExpectCE bool   // go/types rejects the function literal
 	CEMsg    string // its message
 	KnownKey string // failures of this function are reported under this fixed key (recorded finding)
+	Tmpl     string // shape NE (nested.go): the expression text
 
 	gmErr  string
 	gmType string // result type of the gomacro func value
@@ -679,6 +680,9 @@ type Fn struct {
 }
 
 func (f *Fn) opText() string {
+	if f.Tmpl != "" {
+		return "nested[" + f.Tmpl + "]"
+	}
 	if f.Unary {
 		return "unary" + f.Op
 	}
@@ -711,7 +715,7 @@ func (f *Fn) operands(row int) (a, b *Val) {
 		return nil // float / complex constants are only known as text
 	}
 	switch f.Shape {
-	case "VV":
+	case "VV", "NE":
 		return get(0), get(1)
 	case "VC":
 		return get(0), cv()
@@ -733,7 +737,7 @@ func (f *Fn) operandText(row int) string {
 		return "*"
 	}
 	switch f.Shape {
-	case "VV":
+	case "VV", "NE":
 		return "a=" + v(0) + " b=" + v(1)
 	case "VC":
 		return "a=" + v(0) + " c=" + f.C.Text
@@ -1636,7 +1640,9 @@ func main() {
 		"typed constants 0, +-1, +-2^k, 2^(w-2), min, max and a constant ZERO divisor / negative constant shift count (expected compile_error, oracle go/types); " +
 		"VV and unary use every placement, constant shapes rotate through the placements in the quick tier; oracle = the same function literal compiled by go build (go 1.18 module) " +
 		"called on the same tuples, value (canonical: %d, %t, %q, IEEE bits with one NaN) and %T compared exactly; non-trivial = not all operands (constants included) zero/false/empty; " +
-		"distinct by SHA-256 of (op, kinds, shape, placement, constant, operands)"
+		"distinct by SHA-256 of (op, kinds, shape, placement, constant, operands); " +
+		"additionally (shape NE, nested.go, differential only): for every integer kind, 40 constant-shortcut forms (x*0, 0*x, x*1, x*-1, x*2^k, x+0, 0-x, x|0, x|^0, x&0, x&^0, x&-1, x^0, x/1, x/-1, x/2, 0/x, x%1, x%-1, x%4, 0%x, x<<0, x>>0, 0<<x, 0>>x; typed and untyped constants) " +
+		"whose non-constant operand is (a / b), (a % b), (a << b), (a >> b) or a call that counts its evaluations (quick: 2 of the 5 per form and kind, rotating), on the (a, b) pair sets (b == 0, b < 0, min/-1 included): the run-time panic / side effect of the operand must be observed exactly as in compiled Go"
 	rep := vh.NewReport(a, rule)
 	wd := vh.NewWatchdog(rep, 180*time.Second)
 	tStart := time.Now()
@@ -1648,6 +1654,7 @@ func main() {
 	// ---- enumerate, classify compile errors, write + build + run the oracle in the background
 	g := &Gen{a: a, thorough: a.Thorough(), sets: map[string][]*OpSet{}, setUse: map[string]int{}, pools: map[string][]Val{}}
 	g.enumerate()
+	g.enumerateNested() // nested.go: constant shortcuts around an operand that panics / has a side effect
 	rep.Extra["enumerate_done_at"] = time.Since(tStart).Seconds()
 	if err := g.typecheck(); err != nil {
 		fmt.Fprintln(os.Stderr, "c01:", err)
@@ -1733,7 +1740,7 @@ func main() {
 		ok := func(k *Kind) bool { return k == nil || k.Cat == cBool || k.IsInt() || k.Cat == cString }
 		// inputs of a recorded finding class are compared with compiled Go (and reported under the class key) but are
 		// not given to the Coq model: the model describes Go, and would flag them a second time as a mismatch
-		return ok(f.KA) && ok(f.KB) && f.KnownKey == ""
+		return ok(f.KA) && ok(f.KB) && f.KnownKey == "" && f.Shape != "NE"
 	}
 	record := func(f *Fn, row int, outcome string) {
 		ax, bx := f.operands(row)
@@ -1744,7 +1751,11 @@ func main() {
 			}
 		}
 		rep.Count(f.opText()+" "+f.kindText()+" "+f.Shape+" "+f.Place+" "+f.operandText(row), nontrivial)
-		rep.Dist("op:" + f.opText())
+		if f.Tmpl != "" {
+			rep.Dist("op:nested-const-shortcut")
+		} else {
+			rep.Dist("op:" + f.opText())
+		}
 		rep.Dist("kind:" + f.KA.Name)
 		rep.Dist("shape:" + f.Shape)
 		rep.Dist("place:" + f.Place)
